@@ -596,6 +596,9 @@ class HTTP2ConnectionByteStream:
             # before raising that exception.
             with ShieldCancellation():
                 self.close()
+            if isinstance(exc, ConnectionNotAvailable):
+                # The response has started, so the request cannot be retried.
+                raise RemoteProtocolError("Connection terminated") from exc
             raise exc
 
     def close(self) -> None:
